@@ -171,6 +171,21 @@ int w_vm_push_code(void* p, const char* code, size_t n, int can_suspend)
     context->push_frame({ v->rt->default_value_scope(), set.value() });
     return 0;
 }
+// registers a stand-in operator (no-op callback) under the given name through the VM's own register_sqfop(): used to give the real
+// lexer/parser the complete registry (names, arities, precedences) dumped from the real registration functions by harness/opsdump.cpp
+static value dummy_n(runtime&) { return {}; }
+static value dummy_u(runtime&, value::cref) { return {}; }
+static value dummy_b(runtime&, value::cref, value::cref) { return {}; }
+int w_vm_register_dummy(void* p, int kind, const char* name, int prec)
+{
+    auto rt = ((vm_t*)p)->rt;
+    std::string n(name);
+    using namespace sqf::runtime::sqfop;
+    if (kind == 0) { if (rt->sqfop_exists_nular(n)) return 0; rt->register_sqfop(nular(n, "", dummy_n)); return 1; }
+    if (kind == 1) { if (rt->sqfop_exists_unary(n)) return 0; rt->register_sqfop(unary(n, t_any(), "", dummy_u)); return 1; }
+    if (rt->sqfop_exists_binary(n)) return 0;
+    rt->register_sqfop(binary((short)prec, n, t_any(), t_any(), "", dummy_b)); return 1;
+}
 // config text -> confighost through the real config parser. returns 1 ok, 0 failed
 int w_vm_parse_config(void* p, const char* text, size_t n)
 {
